@@ -761,6 +761,9 @@ func main() {
 	if *mode == "conc" {
 		workers = 4
 	}
+	if *mode == "mem" {
+		workers = 48 // sleep-bound; a burst that is delayed beyond burstMax is rerun
+	}
 	var next int64 = -1
 	var wg sync.WaitGroup
 	for w := 0; w < workers; w++ {
